@@ -75,7 +75,16 @@ def generate(seed, tier):
                 ops.append({'op': 'sector_var', 'id': eid, 'name': 'V%d' % len(eqs), 'eqn': rng.choice(LEADING)})
             eqs.append((eid, kind))
             continue
-        if r < 0.12:
+        if r < 0.10 and eqs:
+            # a Term object owned by the caller, added (possibly several times, possibly to several equations)
+            tid = 't%d' % sum(1 for o in ops if o['op'] == 'mkterm')
+            body = atom(rng)
+            ops.append({'op': 'mkterm', 'id': tid, 'term': spell(rng, body), 'body': body})
+            for _ in range(rng.randint(1, 4)):
+                eid, kind = eqs[rng.randrange(len(eqs))]
+                ops.append({'op': 'add_obj', 'eq': eid, 'tobj': tid, 'via': 'sector' if kind == 'sector' else 'equation'})
+            continue
+        if r < 0.14:
             lid = 'l%d' % len(lists)
             n = rng.randint(1, 5)
             ops.append({'op': 'join', 'id': lid, 'terms': [rng.choice(JOIN_TERMS) for _ in range(n)]})
@@ -164,6 +173,7 @@ def execute(case):
     objs = {}     # id -> ('eq', Equation) | ('sec', sector, name)
     model = {}    # id -> list of expression texts whose values are summed
     lists = {}    # id -> (live list object, original copy)
+    terms = {}    # id -> (Term object owned by the caller, text, constant and text at creation)
     sector = None
     all_names = set(NAMES)
     for o in case['ops']:
@@ -262,6 +272,27 @@ def execute(case):
                         break
                     viol.append(core.violation(ID, 'valid-term-rejected', 'valid-term-rejected:' + type(ex).__name__,
                                                op=o, error=str(ex)[0:100]))
+                    break
+            elif op == 'mkterm':
+                t = Term(o['term'])
+                terms[o['id']] = (t, o['term'], t.Constant, t.Term)
+            elif op == 'add_obj':
+                if o['eq'] not in objs or o['tobj'] not in terms:
+                    continue
+                t, text, c0, t0 = terms[o['tobj']]
+                try:
+                    if o['via'] == 'sector':
+                        objs[o['eq']][1].AddTermToEquation(objs[o['eq']][2], t)
+                    else:
+                        objs[o['eq']][1].AddTerm(t)
+                    model[o['eq']].append(text)
+                    stats['accepted'] += 1
+                    stats['probes']['term_object_added'] = 1
+                except Exception as ex:   # noqa
+                    stats['rejected'] += 1
+                if (t.Constant, t.Term) != (c0, t0):
+                    viol.append(core.violation(ID, 'caller-term-object-modified', 'caller-term-object-modified',
+                                               term=text, constant_before=c0, constant_after=t.Constant))
                     break
             elif op == 'set_rhs':
                 if o['eq'] not in objs:
